@@ -772,59 +772,90 @@ func runC07(c *Ctx) {
 	// mentions is reported as soon as the first name happens to be unreferenced.
 	c.Rule("R7.6", func() {
 		c.Floor("R7.6", 4)
-		decl := c.Func("unused", "(*graph).decl")
+		declFn := c.Func("unused", "(*graph).decl")
 		readName := Module + "/unused.graph.read"
-		noValues := LenZeroEdges(decl, func(v ssa.Value) bool { return DerivesLocal(v, IsFieldOf("ast.ValueSpec", "Values")) })
 		n := 0
-		for _, ci := range Calls(decl, false) {
-			objCall, ok := ci.(*ssa.Call)
-			if !ok || !strings.HasSuffix(CalleeName(&objCall.Call), "types.Info.ObjectOf") || !DerivesLocal(objCall.Call.Args[1], IsFieldOf("ast.ValueSpec", "Names")) {
+		// the per-name work may live in decl itself or in a helper that decl hands the name to
+		type scope struct {
+			fn     *ssa.Function
+			isName func(ssa.Value) bool
+		}
+		scopes := []scope{{declFn, func(v ssa.Value) bool { return DerivesLocal(v, IsFieldOf("ast.ValueSpec", "Names")) }}}
+		for _, ci := range Calls(declFn, false) {
+			h := ci.Common().StaticCallee()
+			if h == nil || FuncPkgPath(h) != Module+"/unused" || h == declFn || h.Blocks == nil {
 				continue
 			}
-			// only the per-name loops that register the object (not the constant-group ring)
-			registers := false
-			for _, sc := range CallsTo(decl, false, Module+"/unused.graph.see") {
-				if Derives(sc.Common().Args[1], func(v ssa.Value) bool { return v == ssa.Value(objCall) }) {
-					registers = true
-				}
-			}
-			if !registers {
-				continue
-			}
-			reads := func(field string) []ssa.Instruction {
-				var out []ssa.Instruction
-				for _, rc := range CallsTo(decl, false, readName) {
-					args := rc.Common().Args
-					if len(args) == 3 && DerivesLocal(args[1], IsFieldOf("ast.ValueSpec", field)) && Derives(args[2], func(v ssa.Value) bool { return v == ssa.Value(objCall) }) {
-						out = append(out, rc)
-					}
-				}
-				return out
-			}
-			isOneOf := func(list []ssa.Instruction) func(ssa.Instruction) bool {
-				return func(in ssa.Instruction) bool {
-					for _, x := range list {
-						if x == in {
-							return true
+			for ai, a := range ci.Common().Args {
+				if ai < len(h.Params) && DerivesLocal(a, IsFieldOf("ast.ValueSpec", "Names")) {
+					prm := h.Params[ai]
+					dup := false
+					for _, sc := range scopes {
+						if sc.fn == h {
+							dup = true
 						}
 					}
-					return false
+					if !dup {
+						scopes = append(scopes, scope{h, func(v ssa.Value) bool {
+							return Derives(v, func(x ssa.Value) bool { return x == ssa.Value(prm) })
+						}})
+					}
 				}
 			}
-			end := func(in ssa.Instruction) bool {
-				if _, ok := in.(*ssa.Return); ok {
-					return true
+		}
+		for _, sc := range scopes {
+			decl := sc.fn
+			noValues := LenZeroEdges(decl, func(v ssa.Value) bool { return DerivesLocal(v, IsFieldOf("ast.ValueSpec", "Values")) })
+			for _, ci := range Calls(decl, false) {
+				objCall, ok := ci.(*ssa.Call)
+				if !ok || !strings.HasSuffix(CalleeName(&objCall.Call), "types.Info.ObjectOf") || !sc.isName(objCall.Call.Args[1]) {
+					continue
 				}
-				return in == ssa.Instruction(objCall)
+				// only the per-name loops that register the object (not the constant-group ring)
+				registers := false
+				for _, sc := range CallsTo(decl, false, Module+"/unused.graph.see") {
+					if Derives(sc.Common().Args[1], func(v ssa.Value) bool { return v == ssa.Value(objCall) }) {
+						registers = true
+					}
+				}
+				if !registers {
+					continue
+				}
+				reads := func(field string) []ssa.Instruction {
+					var out []ssa.Instruction
+					for _, rc := range CallsTo(decl, false, readName) {
+						args := rc.Common().Args
+						if len(args) == 3 && DerivesLocal(args[1], IsFieldOf("ast.ValueSpec", field)) && Derives(args[2], func(v ssa.Value) bool { return v == ssa.Value(objCall) }) {
+							out = append(out, rc)
+						}
+					}
+					return out
+				}
+				isOneOf := func(list []ssa.Instruction) func(ssa.Instruction) bool {
+					return func(in ssa.Instruction) bool {
+						for _, x := range list {
+							if x == in {
+								return true
+							}
+						}
+						return false
+					}
+				}
+				end := func(in ssa.Instruction) bool {
+					if _, ok := in.(*ssa.Return); ok {
+						return true
+					}
+					return in == ssa.Instruction(objCall)
+				}
+				kind := "const-or-var#" + itoa(n)
+				n++
+				tr := reads("Type")
+				t1, p1 := PathAvoiding(decl, objCall, end, isOneOf(tr), nil)
+				c.Check(FuncKey(declFn)+"::"+kind+"::uses-its-type", objCall.Pos(), len(tr) > 0 && t1 == nil, "every declared name is the user of the spec's type expression; path without g.read(vspec.Type, obj): %s", PathString(decl, p1))
+				vr := reads("Values")
+				t2, p2 := PathAvoiding(decl, objCall, end, isOneOf(vr), noValues)
+				c.Check(FuncKey(declFn)+"::"+kind+"::uses-its-initializer", objCall.Pos(), len(vr) > 0 && t2 == nil && len(noValues) > 0, "every declared name is the user of its initializer (for `var a, b = f()` each of a and b uses f()); only a spec without values may skip it; path without g.read(vspec.Values[…], obj): %s", PathString(decl, p2))
 			}
-			kind := "const-or-var#" + itoa(n)
-			n++
-			tr := reads("Type")
-			t1, p1 := PathAvoiding(decl, objCall, end, isOneOf(tr), nil)
-			c.Check(FuncKey(decl)+"::"+kind+"::uses-its-type", objCall.Pos(), len(tr) > 0 && t1 == nil, "every declared name is the user of the spec's type expression; path without g.read(vspec.Type, obj): %s", PathString(decl, p1))
-			vr := reads("Values")
-			t2, p2 := PathAvoiding(decl, objCall, end, isOneOf(vr), noValues)
-			c.Check(FuncKey(decl)+"::"+kind+"::uses-its-initializer", objCall.Pos(), len(vr) > 0 && t2 == nil && len(noValues) > 0, "every declared name is the user of its initializer (for `var a, b = f()` each of a and b uses f()); only a spec without values may skip it; path without g.read(vspec.Values[…], obj): %s", PathString(decl, p2))
 		}
 		if n < 2 {
 			c.Undecided("found %d per-name loops over ValueSpec.Names in (*graph).decl, expected the const and the var case", n)
